@@ -103,7 +103,7 @@ GROUPS = {
         props=["C18"],
         jobs=8,
         harnesses=[dict(name=n, complete=True, targets=["OwnedTimerGuard", "SharedDuration", "MaybeGuardedDuration::shared_cloned", "Stopwatch::clear/close"], timeout=600,
-                        bound="symbolic total (Option) and spans (u32 seconds + nanos); loop-free; guards built already stopped (no clock)") for n in ['shared_cloned_keeps_total', 'owned_guard_drop_adds_span_once', 'owned_guard_stop_returns_span_and_adds_once', 'owned_guard_discard_adds_nothing', 'owned_guard_overwrite_replaces_total', 'two_live_owned_guards_both_count', 'clear_with_live_owned_guard', 'borrowed_guard_on_shared_stopwatch']],
+                        bound="symbolic total (Option) and spans (u32 seconds + nanos); loop-free; guards built already stopped (no clock)") for n in ['shared_cloned_keeps_total', 'owned_guard_drop_adds_span_once', 'owned_guard_stop_returns_span_and_adds_once', 'owned_guard_discard_adds_nothing', 'owned_guard_overwrite_replaces_total', 'two_live_owned_guards_both_count', 'clear_with_live_owned_guard', 'borrowed_guard_on_shared_stopwatch', 'borrowed_overwrite_with_live_owned_guard', 'borrowed_discard_with_live_owned_guard']],
     ),
     "core_boxed": dict(
         crate="metrique-writer-core",
